@@ -1605,7 +1605,7 @@ fn precis_enforce_model(s: &str) -> Result<std::borrow::Cow<'_, str>, precis_cor
     }
 }
 #[kani::proof]
-#[kani::unwind(10)]
+#[kani::unwind(4)]
 #[kani::stub(crate::strings::opaque_string_prepapre, precis_prepare_model)]
 #[kani::stub(crate::strings::opaque_string_enforce, precis_enforce_model)]
 #[kani::stub(crate::types::HMACKey::get_key, get_key_rec)]
